@@ -6,7 +6,8 @@ import itertools
 
 
 def spec(part, isect, layout, types, where, style, cbits=True, isect_rank=None, types_by_comp=None):
-    kr = ["K"] if part is None else ["K1", "K0"]
+    nlev = 0 if part is None else part.count("(")
+    kr = ["K"] if part is None else ["K%d" % l for l in range(nlev, -1, -1)]
     inner = kr[-1]
     y = "einsum:\n  declaration:\n    A: [K, M]\n    B: [K, N]\n    Z: [M, N]\n  expressions:\n  - Z[m, n] = A[k, m] * B[k, n]\n"
     y += "mapping:\n  rank-order:\n    A: [K, M]\n    B: [K, N]\n    Z: [M, N]\n"
@@ -72,6 +73,13 @@ def specs(tier="quick"):
             continue
         name = "matmul K:%s isect=%s layout=%s on-chip %s in %s style=%s" % (part, isect, layout, "+".join(types), "+".join(where), style)
         out.append((name, spec(part, isect, layout, types, where, style)))
+    # a rank split statically and then dynamically (three levels), and twice dynamically
+    for part in ("uniform_shape(20), uniform_occupancy(A.5)", "uniform_occupancy(A.20), uniform_occupancy(A.5)",
+                 "uniform_shape(20), uniform_shape(5)"):
+        for types, where, style in ((("coord", "payload"), ("Buf",), "lazy"), (("coord", "payload"), ("L2", "Buf"), "eager"),
+                                    (("elem",), ("L2",), "lazy")):
+            out.append(("matmul K:[%s] on-chip %s in %s style=%s" % (part, "+".join(types), "+".join(where), style),
+                        spec(part, "two-finger", "contiguous", types, where, style)))
     # different binding types in the cache and in the buffet below it (same tensor, rank, format)
     for part in parts:
         for layout in layouts:
